@@ -3,6 +3,7 @@
    nasConvert/ProtocolConfigurationOptions.go, PSI.go and
    PDUSessionReactivationResultErrorCause.go (tied to the Go code by the
    correspondence run of harness/cmd/c16). *)
+From NV Require C19.Globals.
 From NV Require Import Lib.Base C16.Model C16.Proofs.
 Open Scope N_scope.
 
@@ -139,6 +140,14 @@ Example C16_reactivation_ex :
   PDUSessionReactivationResultErrorCauseToBuf [5; 7] [43; 90] = Ok [5; 43; 7; 90].
 Proof. reflexivity. Qed.
 
+(* the functions this property is about are functions of their arguments: the files it is anchored in declare
+   no package-level variable other than the pinned read-only tables (or a never-touched one of plain type) and
+   none of their functions writes, slices, takes the address of, passes on or calls a method of a
+   package-level variable (logger entries excepted) -- evaluated on the current source (C19/Globals.v) *)
+Theorem C16_anchor_files_keep_no_state :
+  Globals.hidden_state_free Globals.anchors_C16 = true.
+Proof. vm_compute. reflexivity. Qed.
+
 Print Assumptions C16_pco_roundtrip.
 Print Assumptions C16_pco_first_octet.
 Print Assumptions C16_pco_helpers_wf.
@@ -153,3 +162,4 @@ Print Assumptions C16_psi_bitmap_roundtrip_array.
 Print Assumptions C16_psi_total.
 Print Assumptions C16_reactivation_error_cause.
 Print Assumptions C16_reactivation_error_cause_pairs.
+Print Assumptions C16_anchor_files_keep_no_state.
